@@ -1,7 +1,7 @@
 """C10 — invalid input is refused with a 4xx before any handler runs."""
 from .lib import (PLUMBING, callee_allow, callers, closure_args_of_call, const_int, operand_local, status_const_of_ctor, try_edges)
 from .lib_c10 import (MEMBER_FROM_REQUEST, TOP_FROM_REQUEST, closure_site, extraction_region, generic_route_handler, impl_fns,
-                      load_panic_table, panic_sites, result_guards, tuple_arity, upvar_fields, upvar_origin, upvar_params)
+                      load_panic_table, norm_id, panic_sites, result_guards, tuple_arity, upvar_fields, upvar_origin, upvar_params)
 
 LEVEL = "other"
 TECHNIQUE = ("static analysis: edge dominance of the handler call by the extractor's Ok edge, error-preserving chain over the tuple extractors, "
@@ -307,7 +307,7 @@ def r3_error_class(ctx):
                 else:
                     ok = 400 <= v < 500
                     detail += " status=%s" % v
-            ctx.check(R, "ctor-call:%s->%s" % (fid, c.split("::")[-1]), ok, "HttpError constructor in the extraction region: %s" % detail, (f, bb))
+            ctx.check(R, "ctor-call:%s->%s" % (norm_id(fid), c.split("::")[-1]), ok, "HttpError constructor in the extraction region: %s" % detail, (f, bb))
         for b, i, st in f.aggregates(r"^error::HttpError$"):
             if b not in f.reachable(0):
                 continue
@@ -324,7 +324,7 @@ def r3_error_class(ctx):
                 consts = [a for a in ss.atoms if a[0] in ("const", "lit")]
                 ok = bool(ptypes) and all("ClientErrorStatusCode" in x for x in ptypes) and not consts and f.raw["kind"] != "Closure"
                 detail = "status_code <- params typed %s, constants %d" % (ptypes, len(consts))
-            ctx.check(R, "literal:%s" % fid, ok, "HttpError struct literal in the extraction region: %s" % detail, (f, b))
+            ctx.check(R, "literal:%s" % norm_id(fid), ok, "HttpError struct literal in the extraction region: %s" % detail, (f, b))
     ctx.notes["httperror_sites_in_region"] = n
     # the two content-type failure sites exist and are client errors
     lb = ds.one(r"^extractor::body::http_request_load_body$")
@@ -361,7 +361,7 @@ def r4_panic_census(ctx):
         f = ds.F[fid]
         foreign_body = f.raw["span"].startswith("/")
         for kind, what, exp, bb in panic_sites(f):
-            k = (fid, "foreign-macro" if (foreign_body and exp) else kind, what)
+            k = (norm_id(fid), "foreign-macro" if (foreign_body and exp) else kind, what)
             seen[k] = seen.get(k, 0) + 1
             where.setdefault(k, (f, bb))
     nfn = len(info["region"])
@@ -553,6 +553,13 @@ SELFTEST = [
      "edits": [("dropshot/src/extractor/body.rs", "    let content = match (expected_content_type, body_content_type) {\n        (Json, Json) => {",
                 "    if std::mem::discriminant(&expected_content_type) != std::mem::discriminant(&body_content_type) {\n        return Err(HttpError::for_bad_request(\n            None,\n            format!(\n                \"expected content type \\\"{}\\\", got \\\"{}\\\"\",\n                expected_content_type.mime_type(),\n                body_content_type.mime_type()\n            ),\n        ));\n    }\n    let content = match (expected_content_type, body_content_type) {\n        (Json, Json) => {")],
      "why": "behaviour-preserving: the mismatch is refused by an explicit discriminant != test before the match"},
+    {"name": "query-error-helper-extracted", "kind": "benign",
+     "edits": [("dropshot/src/extractor/query.rs",
+                "        Err(e) => Err(HttpError::for_bad_request(\n            None,\n            format!(\"unable to parse query string: {}\", e),\n        )),",
+                "        Err(e) => Err(query_parse_error(e)),"),
+               ("dropshot/src/extractor/query.rs", "// The `SharedExtractor` implementation for Query<QueryType> describes how to",
+                "fn query_parse_error(e: impl std::fmt::Display) -> HttpError {\n    HttpError::for_bad_request(\n        None,\n        format!(\"unable to parse query string: {}\", e),\n    )\n}\n\n// The `SharedExtractor` implementation for Query<QueryType> describes how to")],
+     "why": "behaviour-preserving: the error construction extracted into a helper function"},
     {"name": "query-error-via-map-err", "kind": "benign",
      "edits": [("dropshot/src/extractor/query.rs",
                 "    match serde_urlencoded::from_str(raw_query_string) {\n        Ok(q) => Ok(Query { inner: q }),\n        Err(e) => Err(HttpError::for_bad_request(\n            None,\n            format!(\"unable to parse query string: {}\", e),\n        )),\n    }",
